@@ -323,6 +323,9 @@ class Engine:
             if fin.get("err") or not fin:
                 msgs.append("after a failed creation later calls do not work: %s" % fin)
             return msgs
+        if self.prop == "C05" and "kek" in pre and (post.get("kek") != pre.get("kek") or fin.get("kek") != pre.get("kek")):
+            msgs.append("the key-encryption key was consulted %s time(s) after Open (during a call whose save met an I/O error, or its aftermath): a running server must not depend on the key service" % (
+                (fin.get("kek") or post.get("kek") or 0) - pre.get("kek")))
         if op["err"]:
             if post.get("sha") != pre.get("sha"):
                 msgs.append("the call reported %r but the database file changed on disk" % op["err"])
@@ -360,9 +363,9 @@ def add_entry(dump, name, val):
 
 # ---- case generation (a tiny model keeps generated operations valid) ----
 
-def gen_cases(rng, per_kind, want_cache, want_db):
+def gen_cases(rng, per_kind, want_cache, want_db, kinds=None):
     cases = []
-    kinds = ["create", "new-secret", "new-version", "activate", "delete-version", "delete"]
+    kinds = kinds or ["create", "new-secret", "new-version", "activate", "delete-version", "delete"]
     n = 0
     if want_db:
         for kind in kinds:
@@ -430,13 +433,79 @@ def gen_cases(rng, per_kind, want_cache, want_db):
     return cases
 
 
+def open_readonly_stage(ck, b, prop, st, tier, seed, outdir):
+    """C03: Opening never modifies the file. A fresh process opens an existing
+    database under strace: on the live path only read-only opens and stats are
+    allowed; no write, rename, unlink, truncate, chmod anywhere in the state
+    directory; bytes, inode and mtime are unchanged afterwards."""
+    t0 = time.time()
+    eng = Engine(ck, b, prop, outdir, seed)
+    rng = random.Random("%s-open-%d" % (prop, seed))
+    n = st.get("n_" + tier, 3)
+    cases = gen_cases(rng, max(1, n // 2), False, True)[:n]
+    viol, done, samples = [], 0, []
+    for case in cases:
+        if case["script"]["mode"] != "db":
+            continue
+        d = eng.fresh_dir()
+        try:
+            rc, outs, err = eng.run_child(eng.script(case, d))
+            if rc != 0:
+                eng.trouble.append("open-ro: setup failed: " + err[-200:])
+                continue
+            live = os.path.join(d, "state", "secrets.db")
+            before = open(live, "rb").read()
+            st0 = os.stat(live)
+            tp = os.path.join(d, "trace")
+            rc, outs, err = eng.run_child({"mode": "verify", "dir": os.path.join(d, "state"), "key": eng.key}, trace_path=tp)
+            mainpid, entries = parse_trace(open(tp).read())
+            bad = []
+            calls = []
+            for e in entries:
+                touches = any(b"/state/" in x or x.endswith(b"/state") for x in e["strs"])
+                if e["name"] in ("openat",) and touches:
+                    calls.append("openat " + re.search(r"O_\w+(\|O_\w+)*", e["raw"]).group(0))
+                    if any(f in e["raw"] for f in ("O_WRONLY", "O_RDWR", "O_TRUNC", "O_APPEND", "O_CREAT")):
+                        bad.append("Open opened %r for writing: %s" % (e["strs"][0][-30:], e["raw"][:120]))
+                if e["name"] in ("rename", "renameat", "renameat2", "unlink", "unlinkat", "ftruncate", "fchmod", "fchmodat", "linkat") and (touches or e["name"] in ("ftruncate", "fchmod")):
+                    bad.append("Open issued %s(%s)" % (e["name"], e["raw"][:100]))
+                if e["name"] in ("write", "pwrite64") and e["raw"].split(",")[0].strip() not in ("1", "2"):
+                    bad.append("Open wrote to descriptor %s" % e["raw"].split(",")[0])
+            st1 = os.stat(live)
+            if open(live, "rb").read() != before or st0.st_ino != st1.st_ino or st0.st_mtime_ns != st1.st_mtime_ns:
+                bad.append("the file changed across Open (bytes/inode/mtime)")
+            done += 1
+            if len(samples) < 2:
+                samples.append(dict(case=case["name"], open_syscalls=calls))
+            for m in bad:
+                viol.append(dict(oracle=prop + ".open-readonly", message="%s: %s" % (case["name"], m), case=case))
+        finally:
+            shutil.rmtree(d, ignore_errors=True)
+    out_viol = []
+    keep = os.path.join(os.environ.get("VERIF_REPLAYS_DIR") or os.path.join(ck.VERIF, "replays"), prop)
+    for v in viol[:3]:
+        os.makedirs(keep, exist_ok=True)
+        case = dict(v["case"])
+        case["markers"] = [m.decode() for m in case.get("markers", [])]
+        dst = os.path.join(keep, "%s-crashfs-openro-%s.json" % (prop, v["case"]["name"]))
+        json.dump(dict(property=prop, stage_module="crashfs", engine="crashfs-openro", seed=seed, case=case, fault=dict(kind="open-readonly"),
+                       violation=dict(oracle=v["oracle"], step=0, message=v["message"])), open(dst, "w"), indent=1)
+        out_viol.append(dict(oracle=v["oracle"], message=v["message"], replay=dst))
+    totals = dict(runs=done, nontrivial=done, steps=0, ops=done, sim_time_s=0.0, wall_s=time.time() - t0, faults={}, probes={"open-traced": done},
+                  per_engine={"crashfs-openro": done}, digests=set(), distinct_extra=done, samples=samples,
+                  real=["db.Open load path", "Linux kernel file system (tmpfs)"], stub=[], violations=[])
+    return dict(totals=totals, violations=out_viol, trouble=eng.trouble)
+
+
 def run_stage(ck, b, prop, st, tier, seed, outdir):
+    if st.get("open_ro"):
+        return open_readonly_stage(ck, b, prop, st, tier, seed, outdir)
     t0 = time.time()
     eng = Engine(ck, b, prop, outdir, seed)
     rng = random.Random(seed * 1000003 + hash(prop) % 1000)
     rng = random.Random("%s-%d" % (prop, seed))
     per_kind = st.get("per_kind_" + tier, st.get("per_kind_quick", 1))
-    cases = gen_cases(rng, per_kind, st.get("cache", False), st.get("db", True))
+    cases = gen_cases(rng, per_kind, st.get("cache", False), st.get("db", True), st.get("kinds"))
     budget = st.get(tier, st.get("quick", 60))
     jobs = []
     recs = {}
@@ -458,7 +527,8 @@ def run_stage(ck, b, prop, st, tier, seed, outdir):
                 eng.violations.append(dict(case=case, fault=dict(kind="trace-invariant"), message="%s (%s): %s" % (case["name"], case["kind"], m), oracle=prop + ".trace"))
             for wi in range(rec["wb"] + 1, rec["we"] + 1):
                 e = rec["main"][wi]
-                jobs.append((case, wi, "kill", None))
+                if st.get("faults") != "error":
+                    jobs.append((case, wi, "kill", None))
                 if wi < rec["we"]:
                     for en in ERRNOS.get(e["name"], []):
                         jobs.append((case, wi, "error", en))
